@@ -107,3 +107,15 @@ GLOBAL_ALLOWED_PREFIX = (
     'filters.oleq.OLEQ.', 'filters.roleq.ROLEQ.',
 )
 RANDOM_PREFIX = ('utils.sensors.',)
+
+# methods that update, in place, arrays the OBJECT allocated itself (never the caller's): the static analysis cannot
+# separate them from constructor data through the single return channel of attribute flows; the dynamic check confirms on
+# every run that no caller array changes.  Listed so that the exemption is explicit (C15 owns the WMM object state).
+OWN_STATE_INPLACE = {
+    'utils.wmm.WMM.denormalize_coefficients': 'self.c / self.cd are loaded by load_coefficients (np.zeros), then scaled in place',
+    'utils.wmm.WMM.magnetic_field': 'calls reset_coefficients/denormalize_coefficients on its own arrays',
+    'utils.wmm.WMM.__init__': 'calls magnetic_field',
+    'utils.sensors.Sensors.angular_velocities': 'arrays generated by the object itself',
+    'utils.sensors.Sensors.__init__': 'calls generate on arrays generated by the object itself',
+    'utils.sensors.Sensors.generate': 'adds noise in place to arrays it has just computed',
+}
